@@ -36,10 +36,12 @@ func runC06(p *eng.Prog, r *eng.Report, tier string) {
 	waitKey(c, "C06.10")
 	handoffDrained(c, "C06.2")
 	cancelledWaiterToHandler(c, "C06.2")
+	staleNotification(c, "C06.12")
 	// C06.11 the receipt id that selects the waiter is the element's own id
 	ownAttrLookups(c, "C06.11", func(f *eng.Fn) bool { return strings.HasPrefix(f.Short, "receipts.") })
 	// C06.6 the library's own helpers release every response they obtain
 	respRelease(c, "C06.6", 8)
+	respIterContract(c, "C06.6")
 	// C06.8 waiter-table registrations are withdrawn when the wait is cancelled
 	registrationWithdrawn(c, "C06.8", "xmpp.Session.sentStanzas", 1)
 	registrationWithdrawn(c, "C06.8", "receipts.Handler.sent", 1)
